@@ -135,3 +135,24 @@ W2 = REG.add(Contract(
     may_raise=["Any", "AttributeError"], verify_with=w2_verify, free_default=True,
     properties=("C16",)))
 W2.note = "np.array_equal and index_initial[-1] are opaque numpy operations"
+
+
+# ---- R10: the tail of LASFile.read remembers a COPY of the index (so that later in-place edits are detected by write())
+copy_of = z3.Function("py_call_0", PyObj, PyObj)      # opaque zero-argument method call: obj.copy()
+attr_copy = z3.Function("py_attr_copy", PyObj, PyObj)
+
+
+def r10_verify(E, c):
+    body, fn = BL.find_block(E, "las.LASFile.read", "if len(self.curves) > 0:", "self.index_initial")
+    return E.verify(c, fnode=fn, body=body, module="las")
+
+
+R10 = REG.add(Contract(
+    "las.LASFile.read#R10-index-snapshot", params={"self": LAS},
+    requires=lambda c: API.las_shape(c),
+    ensures=lambda c: [("index_initial-is-a-copy-of-the-index-not-the-index-itself", z3.Implies(
+        API.cv(c).n > 0,
+        z3.Select(c.h("index_initial"), c.a["self"].t) == copy_of(attr_copy(z3.Select(c.h("data"), API.cv(c).item(0))))))],
+    modifies={"index_initial": lambda c, r: r == c.a["self"].t},
+    verify_with=r10_verify, may_raise=["Any"], properties=("C16",)))
+R10.note = "ndarray.copy() is an opaque method call (T-np: returns a new array with equal contents)"
